@@ -211,6 +211,9 @@ def _real_pair(v):
     return None
 
 
+_INF = float('inf')
+
+
 class SReal:
     """Symbolic real number n/d with z3 Real terms n, d (d != 0 on the path).
     + - * never introduce division; / forks on a zero divisor exactly like Python."""
@@ -305,6 +308,9 @@ class SReal:
 
     # -- comparisons
     def _cmp(s, o, f):
+        if isinstance(o, float) and o in (_INF, -_INF):
+            # every real is strictly between the infinities: the comparison is a constant, exactly as for floats
+            return SBool(s.sp, z3.BoolVal(bool(f(0, 1 if o > 0 else -1))))
         r = _real_pair(o)
         if r is None:
             return NotImplemented
@@ -328,12 +334,16 @@ class SReal:
         return s._cmp(o, lambda a, b: a >= b)
 
     def __eq__(s, o):
+        if isinstance(o, float) and o in (_INF, -_INF):
+            return False
         r = _real_pair(o)
         if r is None:
             return False
         return SBool(s.sp, S(s.n * r[1] == r[0] * s.d))
 
     def __ne__(s, o):
+        if isinstance(o, float) and o in (_INF, -_INF):
+            return True
         r = _real_pair(o)
         if r is None:
             return True
